@@ -1,6 +1,7 @@
 #!/bin/bash
 # usage: tools/devcheck.sh <repo-dir> <Cxx> [--tier ...]   -- run a check against another checkout of the repository (development only)
 R=$1; shift
-cd /verif
-export DFOLS_REPO=$R PYTHONPATH=$R:/verif PYTHONHASHSEED=0 OMP_NUM_THREADS=1 OPENBLAS_NUM_THREADS=1 MKL_NUM_THREADS=1 PYTHONDONTWRITEBYTECODE=1
+V=${VERIF_ROOT:-/verif}
+cd $V
+export DFOLS_REPO=$R PYTHONPATH=$R:$V PYTHONHASHSEED=0 OMP_NUM_THREADS=1 OPENBLAS_NUM_THREADS=1 MKL_NUM_THREADS=1 PYTHONDONTWRITEBYTECODE=1
 exec timeout -k 10 ${VERIF_CHECK_TIMEOUT:-3000} /venv/bin/python -u -m harness.check "$@"
